@@ -35,6 +35,7 @@ def plan(tier, seed):
     cases += rowlib.gen_cases(G.marker_collisions(rng, 60 if q else 600), 8, CFGS, "marker")
     cases += rowlib.gen_cases(G.heavy_unbalanced(rng, 24 if q else 200), 8, CFGS, "heavy")
     cases += rowlib.gen_cases(G.spectator_laden(rng, 32 if q else 400), 8, CFGS, "spect")
+    cases += rowlib.gen_cases(G.zero_confidence(rng, 18 if q else 120), 6, CFGS, "zeroconf")
     giant = [("giant_%d" % n, "C" * n + "O>>" + "C" * n + "OCO") for n in ((1001, 1300) if q else (999, 1000, 1001, 1300, 2100))]
     giant += [("giant_bal_%d" % n, "C" * n + "O.C=O>>" + "C" * n + "OCO") for n in (1001,)]
     cases += rowlib.gen_cases(giant, 2, CFGS[:1], "giant")
@@ -74,6 +75,8 @@ def judge(case, out, res):
                 res.viol("declined_row_without_reason", signature=list(sig), **base)
         else:
             res.count("rows_solved")
+            if row.get("solved_by") == "mcs-based" and row.get("confidence") == 0:
+                res.count("mcs_rows_solved_with_confidence_equal_to_default_threshold")
             if row.get("solved_by") not in METHODS:
                 res.viol("solved_row_without_method", **base)
             if not (issue is None or issue == "" or (isinstance(issue, float) and issue != issue)):
